@@ -36,7 +36,14 @@ RULE = ('conversion: base model (AUTOUGH2 for ->TOUGH2, TOUGH2 for ->AUTOUGH2) p
         'type-setter route; in pairs a MOP deviation is taken only from the positions the converters treat '
         '(10,12,14,16,17,20,21,22,23,24), the other 14 positions are singles and crossed with MP; export: 27 rectangular '
         'geometries x 3 atmosphere types x 3 block orders x 2 grid orders, every block position x boundary volumes, '
-        '6 EOS x recognition routes x 5 simulator names, every generator type x every block.  A case is non-trivial '
+        '6 EOS x recognition routes x 5 simulator names, every generator type x every block; the geometry family is '
+        'exported by 4 model origins (built from the geometry / written and re-read / converted, written and re-read '
+        '/ ... and converted back).  Two-model dimension: every conversion case is followed by a re-observation of '
+        'the previous case\'s still-alive converted model (canonical form and re-written file against the snapshot '
+        'taken after its own conversion), and is repeated after two primer conversions with the other solver class, '
+        'other MOP digits, MP and the opposite direction, whose results are then edited in place (all cases in quick; '
+        'singles and every 8th pair in thorough) - the repeat must show the same canonical form, file and verdict.  '
+        'A case is non-trivial '
         'when the call under test ran on a model that differs from every other case (key = direction + atom set, or '
         'the export configuration); distinct = distinct keys')
 ASSUMPTIONS = [
@@ -54,13 +61,21 @@ ASSUMPTIONS = [
     'export: geometry block order (mulgrid.block_name_list) is trusted as the definition of the cell index; a '
     'block of exactly atmos_volume is a boundary block (default atmosphere volume = default limit); json() '
     'refusing a model loudly because of a generator type in the unsupported table is allowed',
+    'interference between models is judged only by what a model shows (canonical form, written file, verdict), never '
+    'by the existence of shared state; edits made in place to a primer model are ordinary attribute/dict/list edits '
+    'of that model',
+    'a GOFT request left for the block of a just-deleted (AUTOUGH2-only) generator is accepted either way',
     'values are chosen exactly printable in their fields (<= 4 significant digits), so round-trip comparison uses '
     'relative tolerance 1e-6',
 ]
-BOUNDS = {'quick': {'deviations': 'k <= 1 (+ MOP10 x MOP23 x simulator family block, + MP x every MOP single, '
+BOUNDS = {'quick': {'second_object': 'every consecutive pair of cases of a unit', 'repeat_after_primers': 'every case',
+                    'export_origins': 4,
+                    'deviations': 'k <= 1 (+ MOP10 x MOP23 x simulator family block, + MP x every MOP single, '
                                   '+ no-SOLVR x every MOP single for ->AUTOUGH2)',
                     'export_boundary_geometries': 4, 'export_generator_pairs': 'none'},
-          'thorough': {'deviations': 'k <= 2 (in pairs, MOP deviations only at converter positions '
+          'thorough': {'second_object': 'every consecutive pair of cases of a unit',
+                       'repeat_after_primers': 'k<=1 cases and every 8th pair', 'export_origins': 4,
+                       'deviations': 'k <= 2 (in pairs, MOP deviations only at converter positions '
                                      '10,12,14,16,17,20,21,22,23,24), plus the quick crossed blocks',
                        'export_boundary_geometries': 27, 'export_generator_pairs': 'all ordered type pairs, 2 placements'}}
 TECHNIQUE = ('deviation-bounded exhaustive enumeration of model configurations on the real converters and exporter, '
@@ -948,8 +963,9 @@ def atom_label(a):
     return '-'.join(str(x) for x in a)
 
 
-def conv_case(direction, atoms):
-    """One configuration.  -> (violations [(sig, what)], outcome, counters dict)."""
+def conv_case(direction, atoms, keep=None):
+    """One configuration.  -> (violations [(sig, what)], outcome, counters dict).  When keep is a dict the
+    converted model, its canonical form after its own write and the written text are left in it."""
     atoms = tuple(tuple(a) for a in atoms)
     out = []
     counters = {}
@@ -1009,6 +1025,8 @@ def conv_case(direction, atoms):
         return out, 'roundtrip-raised', counters
     file_clauses(direction, text, post, meta, V)
     after = canon(dat)          # write() may touch the object (sections, option string)
+    if keep is not None:
+        keep.update(dat=dat, after=after, text=text, site=site, direction=direction, atoms=atoms)
     v0, v1 = rtview(after), rtview(canon(back))
     ncmp = 0
     for f in RT_FIELDS:
@@ -1152,6 +1170,27 @@ def export_model(cfg):
             nm = 'g%3d' % n
             f.update(ltab=2, time=[0., 1.e6], rate=[1., 2.])
         dat.add_generator(t2generator(name=nm, block=names[pos], type=typ, **f))
+    origin = cfg.get('origin', 'geo')
+    if origin != 'geo':
+        # the same model by another route: through a data file, and through a conversion and a data file
+        # (a grid that was read knows nothing the file does not carry)
+        from t2data import t2data as _t2data
+        path = os.path.join(core.scratch(), 'c20x.dat')
+        for stale in (path, os.path.splitext(path)[0] + '.pdat'):
+            if os.path.exists(stale):
+                os.remove(stale)
+        with quiet():
+            if not dat.simulator:
+                dat.simulator = 'AUTOUGH2.2' + eos
+            if origin in ('conv-file', 'conv-file-back'):
+                dat.convert_to_TOUGH2(warn=False)
+                arg = eos
+            dat.write(path)
+            dat = _t2data(path)
+            if origin == 'conv-file-back':
+                dat.convert_to_AUTOUGH2(warn=False, eos=eos)
+                arg = None
+        dat.filename = 'c20x.dat'
     return geo, dat, arg
 
 
@@ -1169,11 +1208,22 @@ def export_case(cfg):
     """-> (violations, outcome)."""
     out = []
 
+    osfx = '' if cfg.get('origin', 'geo') == 'geo' else '|origin=' + cfg['origin']
+
     def V(site, clause, cls, what):
-        sig = 'C20|%s|%s|%s' % (site, clause, cls)
+        sig = 'C20|%s|%s|%s%s' % (site, clause, cls, osfx)
         if sig not in [s for s, w in out]:
-            out.append((sig, what))
-    geo, dat, arg = export_model(cfg)
+            out.append((sig, what + (' [model %s]' % ORIGIN_TEXT[cfg['origin']] if osfx else '')))
+    try:
+        geo, dat, arg = export_model(cfg)
+    except core.CaseTimeout:
+        raise
+    except Exception as e:
+        if not osfx:
+            raise
+        V('json-model', 'raises:%s@%s' % (type(e).__name__, lib_site(e)), 'any',
+          'writing / converting / re-reading the model to export raised %r' % (e,))
+        return out, 'origin-raised'
     av = cfg.get('atmos_volume')
     kw = {} if av is None else {'atmos_volume': av}
     avol = 1.e25 if av is None else av
@@ -1316,8 +1366,11 @@ def export_configs(tier):
         for at in (0, 1, 2):
             for order in ORDERS:
                 for rev in (False, True):
-                    out.append(('geo', {'geo': (nx, ny, nz, at, order), 'gridrev': rev, 'route': ew,
-                                        'gens': 'perblock'}))
+                    for origin in EXPORT_ORIGINS:
+                        cfg = {'geo': (nx, ny, nz, at, order), 'gridrev': rev, 'route': ew, 'gens': 'perblock'}
+                        if origin != 'geo':
+                            cfg['origin'] = origin
+                        out.append(('geo' if origin == 'geo' else 'geo-' + origin, cfg))
     # E2 boundary volumes in every position
     sizes = GEO_SIZES if tier == 'thorough' else QUICK_BGEO
     for (nx, ny, nz) in sizes:
@@ -1381,7 +1434,141 @@ def export_configs(tier):
     return uniq
 
 
+ORIGIN_TEXT = {'file': 'written as AUTOUGH2 and read back', 'conv-file': 'converted to TOUGH2, written and read back',
+               'conv-file-back': 'converted to TOUGH2, written, read back and converted to AUTOUGH2'}
+EXPORT_ORIGINS = ['geo', 'file', 'conv-file', 'conv-file-back']
 NCHUNK_EXPORT = {'quick': 16, 'thorough': 32}
+
+
+# =========================================================================================================
+# two models in one process: no interference, order independence (judged by observable effect only)
+
+def norm(x):
+    if isinstance(x, dict):
+        return tuple(sorted((str(k), norm(v)) for k, v in x.items()))
+    if isinstance(x, (list, tuple)):
+        return tuple(norm(v) for v in x)
+    return x
+
+
+def reobserve(prev, later_site):
+    """prev: what conv_case left of an EARLIER case (model still alive).  Another model has been built, converted
+    and written since.  The earlier model must still show what it showed right after its own conversion, in
+    memory and when written again.  -> [(sig, what)]"""
+    out = []
+    now = canon(prev['dat'])
+    for f in sorted(now):
+        if norm(now[f]) != norm(prev['after'][f]):
+            out.append(('C20|%s|changes-earlier-model:%s|second-object' % (later_site, f),
+                        'a model converted earlier in the process (%s %r) showed %s = %s right after its own '
+                        'conversion and shows %s after another model was converted'
+                        % (prev['direction'], prev['atoms'], f, brief(prev['after'][f]), brief(now[f]))))
+    if not out:
+        path = os.path.join(core.scratch(), 'c20b.dat')
+        try:
+            with quiet():
+                prev['dat'].write(path)
+            with open(path) as fh:
+                text = fh.read()
+        except core.CaseTimeout:
+            raise
+        except Exception as e:
+            out.append(('C20|%s|changes-earlier-model:write-raises|second-object' % later_site,
+                        'writing the earlier model again raised %r' % (e,)))
+            return out
+        if text != prev['text']:
+            a, b = prev['text'].split('\n'), text.split('\n')
+            d = [(x, y) for x, y in zip(a, b) if x != y][:2] or [(len(a), len(b))]
+            out.append(('C20|%s|changes-earlier-model:file|second-object' % later_site,
+                        'the earlier model (%s %r) is written differently after another model was converted: %r'
+                        % (prev['direction'], prev['atoms'], d)))
+    return out
+
+
+def edit_in_place(p):
+    """Legal edits of one's own model; no other model may notice them."""
+    if p.lineq:
+        p.lineq['epsilon'] = 1.e-8
+        p.lineq['max_iterations'] = 77
+    if p.solver:
+        p.solver['closure'] = 1.e-3
+    if p.multi:
+        p.multi['num_secondary_parameters'] = 8
+    p.parameter['option'][5] = 7
+    p.parameter['max_iterations'] = 99
+    p.parameter['default_incons'].append(0.5)
+    p.more_option[3] = 1
+    if p.short_output:
+        p.short_output['frequency'] = 5
+        for k in ('block', 'connection', 'generator'):
+            if p.short_output.get(k):
+                p.short_output[k].pop()
+    for lst in (p.history_block, p.history_connection, p.history_generator):
+        if lst:
+            lst.pop()
+    if p.generatorlist:
+        p.generatorlist[0].gx = 123.
+        p.generatorlist[0].time.append(5.)
+    if p.grid.rocktypelist:
+        p.grid.rocktypelist[0].conductivity = 9.5
+        p.grid.rocktypelist[0].permeability[0] = 5.e-13
+    if p.output_times.get('time'):
+        p.output_times['time'].append(3.e6)
+    for v in p.incon.values():
+        v[1].append(1.)
+
+
+def primers(direction, first):
+    """Other models doing something different, converted (and then edited) just before the case is repeated:
+    the same direction with the other solver class, other MOP digits and MP, then the opposite direction."""
+    other = 'T2A' if direction == 'A2T' else 'A2T'
+    own = first['after']['lineq'].get('type') if direction == 'T2A' else None
+    alive = []
+    if direction == 'T2A':
+        a1 = (('solver', 5 if own == 1 else 4), ('mop', 12, 2), ('mop', 22, 3), ('mp',))
+        a2 = (('lineq', 1), ('mop', 10, 2), ('mop', 23, 1))
+    else:
+        a1 = (('lineq', 1), ('mop', 10, 2), ('mop', 23, 1), ('mp',))
+        a2 = (('solver', 4), ('mop', 12, 2), ('mop', 22, 3))
+    for d, a in ((direction, a1), (other, a2)):
+        dat, meta = build(d, a)
+        run_conversion(dat, meta, d)
+        edit_in_place(dat)
+        alive.append(dat)
+    return alive
+
+
+def order_case(direction, atoms, first, first_viol):
+    """Repeat a case after the primers; it must show exactly what it showed the first time.  -> [(sig, what)]"""
+    alive = primers(direction, first)
+    keep = {}
+    viol, outcome, counters = conv_case(direction, atoms, keep)
+    out = []
+    site = first['site']
+    tag = 'after=other-conversions'
+    if 'after' not in keep:
+        out.append(('C20|%s|order-dependent:outcome|%s' % (site, tag),
+                    'the case converted and round-tripped the first time and ended as %r when repeated after other '
+                    'conversions' % outcome))
+        return out
+    for f in sorted(first['after']):
+        if norm(first['after'][f]) != norm(keep['after'][f]):
+            out.append(('C20|%s|order-dependent:%s|%s' % (site, f, tag),
+                        '%s after conversion is %s when the case runs first and %s when it runs after two other models '
+                        'were converted and edited' % (f, brief(first['after'][f]), brief(keep['after'][f]))))
+    if not out and first['text'] != keep['text']:
+        out.append(('C20|%s|order-dependent:file|%s' % (site, tag), 'the written file differs when the case is repeated '
+                    'after other conversions'))
+    if sorted(s_ for s_, w in viol) != sorted(s_ for s_, w in first_viol):
+        out.append(('C20|%s|order-dependent:verdict|%s' % (site, tag),
+                    'clauses violated the first time %r, when repeated after other conversions %r'
+                    % (sorted(s_ for s_, w in first_viol), sorted(s_ for s_, w in viol))))
+    del alive
+    return out
+
+
+def second_pass(tier, index, atoms):
+    return tier == 'quick' or len(atoms) <= 1 or index % 8 == 0
 
 
 # =========================================================================================================
@@ -1417,15 +1604,42 @@ def run_unit(unit, tier, rec):
     n = NCHUNK[tier] if part == 'conv' else NCHUNK_EXPORT[tier]
     mine = allcfg[i::n]
     if part == 'conv':
-        for atoms in mine:
+        prev = None
+        for idx, atoms in enumerate(mine):
             case = {'part': 'conv', 'direction': direction, 'atoms': jsonable_atoms(atoms)}
+            keep = {}
             try:
                 with core.timelimit(CASE_SECONDS):
-                    viol, outcome, counters = conv_case(direction, atoms)
+                    viol, outcome, counters = conv_case(direction, atoms, keep)
             except core.CaseTimeout:
                 viol, outcome, counters = [('C20|%s|timeout|%s' % (direction, '+'.join(atom_label(a) for a in atoms)),
                                             'case did not finish in %d s' % CASE_SECONDS)], 'timeout', {}
             rec.case(('conv', direction, atoms), nontrivial=True, outcome=direction + ':' + outcome)
+            # no interference: the previous case's model is still alive - it must not have noticed this case
+            if prev is not None and 'after' in prev:
+                try:
+                    with core.timelimit(CASE_SECONDS):
+                        v2 = reobserve(prev, site_name(direction, None))
+                except core.CaseTimeout:
+                    v2 = [('C20|%s|timeout|second-object' % direction, 're-observation did not finish')]
+                rec.case(('conv-second-object', direction, prev['atoms'], atoms), nontrivial=True,
+                         outcome='second-object:' + ('changed' if v2 else 'unchanged'))
+                for sig, what in v2:
+                    rec.violation(sig, what, {'part': 'conv2', 'kind': 'second-object', 'direction': direction,
+                                              'first': jsonable_atoms(prev['atoms']), 'atoms': jsonable_atoms(atoms)})
+            # order independence: the case repeated after other conversions shows the same
+            if 'after' in keep and second_pass(tier, idx, atoms):
+                try:
+                    with core.timelimit(CASE_SECONDS):
+                        v3 = order_case(direction, atoms, keep, viol)
+                except core.CaseTimeout:
+                    v3 = [('C20|%s|timeout|after=other-conversions' % direction, 'repeated case did not finish')]
+                rec.case(('conv-repeated', direction, atoms), nontrivial=True,
+                         outcome='repeated:' + ('differs' if v3 else 'same'))
+                for sig, what in v3:
+                    rec.violation(sig, what, {'part': 'conv2', 'kind': 'order', 'direction': direction,
+                                              'atoms': jsonable_atoms(atoms)})
+            prev = keep
             for k, v in counters.items():
                 rec.count(k, v)
             rec.count('conv_cases_%s_k%d' % (direction, len(atoms)))
@@ -1461,6 +1675,9 @@ def finalize(rec, tier):
         'export boundary position x volume': 'crossed per geometry',
         'export EOS x route x simulator name': 'crossed',
         'export generator type x block': 'crossed; pairs of types %s' % ('crossed' if tier == 'thorough' else 'not explored'),
+        'export geometry family x model origin (geometry / file / converted+file / converted+file+back)': 'crossed',
+        'conversion case x previous model alive (no interference)': 'every consecutive pair within a unit',
+        'conversion case x primer conversions (order independence)': 'all cases' if tier == 'quick' else 'k<=1 and every 8th pair',
     }}
     for d in ('A2T', 'T2A'):
         extra['configurations_%s' % d] = len(configs(d, tier)) if (('conv', d, tier) not in _CFG) else len(_CFG[('conv', d, tier)])
@@ -1480,6 +1697,17 @@ def replay(case):
             viol, outcome = export_case(cfg)
         return viol
     atoms = tuple(tuple(a) for a in case['atoms'])
+    d = case['direction']
+    if case.get('part') == 'conv2':
+        with core.timelimit(3 * CASE_SECONDS):
+            if case['kind'] == 'second-object':
+                prev = {}
+                conv_case(d, tuple(tuple(a) for a in case['first']), prev)
+                conv_case(d, atoms, {})
+                return reobserve(prev, site_name(d, None)) if 'after' in prev else []
+            keep = {}
+            viol, outcome, counters = conv_case(d, atoms, keep)
+            return order_case(d, atoms, keep, viol) if 'after' in keep else []
     with core.timelimit(CASE_SECONDS):
-        viol, outcome, counters = conv_case(case['direction'], atoms)
+        viol, outcome, counters = conv_case(d, atoms)
     return viol
